@@ -5,8 +5,10 @@ package c09
 import (
 	"bytes"
 	"fmt"
+	"io"
 	"math"
 	"math/rand"
+	"net/http"
 	"net/url"
 	"os"
 	"os/exec"
@@ -22,7 +24,7 @@ import (
 	"github.com/google/pprof/verif/internal/sess"
 )
 
-var oddStrings = []string{"", "a", strings.Repeat("L", 3000), "\xff\xfe", `q"r\`, "new\nline", "<b>&amp;", "(", "[", "*", "a.b(c)", "ünï", "%s%d", "\x00", " ", "::", "f\tg", "{{.}}", "</script>"}
+var oddStrings = []string{"", "a", "cpu/wall", "../up", strings.Repeat("L", 3000), "\xff\xfe", `q"r\`, "new\nline", "<b>&amp;", "(", "[", "*", "a.b(c)", "ünï", "%s%d", "\x00", " ", "::", "f\tg", "{{.}}", "</script>"}
 
 // OddProfile generates a structurally valid profile with odd content.
 func OddProfile(r *rand.Rand) *profile.Profile {
@@ -169,6 +171,25 @@ func runCLI(c *harness.Ctx) harness.Result {
 		var obj interface{} = nil
 		sesn := &drv.Session{Flags: &drv.Flags{Bools: b, Strs: st, Ints: ints, Floats: floats, Lists: lists, Args: srcs}, Fetch: &drv.MapFetcher{Profiles: map[string]*profile.Profile{"p": p}}}
 		if r.Intn(4) == 0 {
+			// the same profile fetched over HTTP by pprof's own fetcher (which also saves a local
+			// copy named after the profile's binary and sample types)
+			var buf bytes.Buffer
+			if err := p.Write(&buf); err == nil {
+				for i := range srcs {
+					srcs[i] = "http://host.test/pprof/profile"
+				}
+				for k, v := range lists {
+					for i := range v {
+						lists[k][i] = "http://host.test/pprof/profile"
+					}
+				}
+				sesn.Flags.Args = srcs
+				sesn.Fetch = nil
+				sesn.RoundTr = staticTransport(buf.Bytes())
+				c.Stat("cli_remote_fetches", 1)
+			}
+		}
+		if r.Intn(4) == 0 {
 			sesn.Obj = &binutils.Binutils{}
 		}
 		_ = obj
@@ -191,6 +212,12 @@ func runCLI(c *harness.Ctx) harness.Result {
 	}
 	res.Sample = map[string]any{"profile": harness.Trunc(p.String(), 300), "invocations": tried[:3]}
 	return res
+}
+
+type staticTransport []byte
+
+func (t staticTransport) RoundTrip(req *http.Request) (*http.Response, error) {
+	return &http.Response{StatusCode: 200, Status: "200 OK", Header: http.Header{}, Body: io.NopCloser(bytes.NewReader(t)), Request: req}, nil
 }
 
 var commands = []string{"top", "top10", "top 3 -cum", "text", "tree", "peek .", "peek", "list .", "list", "disasm .", "traces", "tags", "tags k", "raw", "comments", "dot", "callgrind", "proto", "topproto", "svg", "web", "weblist .", "kcachegrind", "gv", "png >out.png", "top >", "top > f.txt", "top 5 foo -bar", "top -", "top10 -", "o", "options", "help", "help top", "help x", "help nodecount", ":", "", " ", "//comment", "top //:c", "q x"}
